@@ -408,7 +408,7 @@ class _FnRun:
     def transfer(self, node, env):
         """-> list of (successor, env or None)."""
         st = node.stmt
-        if not env and not (self.consts and node.kind == "test"):
+        if not env and not (self.consts and (node.kind == "test" or isinstance(st, ast.Expr))):
             return [(s, env) for s, _ in node.succ]
         raising = {}  # name -> containers for which this node certainly raises AttributeError (caught)
         if node.kind not in ("entry", "exit", "raise"):
@@ -430,7 +430,15 @@ class _FnRun:
                     for nm in _target_names(it.optional_vars):
                         out.pop(nm, None)
         normal = out
-        if raising:
+        if node.kind == "stmt" and isinstance(st, ast.Expr) and isinstance(st.value, ast.Call) and (env or self.consts):
+            r0 = self.resolve(st.value)
+            if r0[0] == "repo":
+                tr = self.tracked_args(r0[1], r0[6], r0[5], env)
+                if tr:
+                    binds = _singletons(tr)
+                    if binds and all(not self.an.summary(r0[1], r0[2], r0[3], r0[4], b0, self.depth + 1).returns for b0 in binds):
+                        normal = None
+        if raising and normal is not None:
             normal = dict(out)
             for nm, cs in raising.items():
                 if nm in normal:
@@ -545,6 +553,7 @@ class _FnRun:
         if isinstance(e, ast.Call):
             nf = self.normaliser(e)
             if nf is not None:
+                e = self.expand_kwargs(e)
                 b = astq.bind_call(nf, e)
                 if not b or "X" not in b:
                     return None
@@ -748,6 +757,26 @@ class _FnRun:
                     return next(iter(d))[1]
         return None
 
+    def axisless_squeeze(self, call, env):
+        """np.squeeze(P[...]) / P[...].squeeze() without an axis on (a slice of) the 3-d numpy panel removes *every* axis of
+        length one -- also the instance axis of a one-instance batch or the time axis of a one-point window."""
+        f = call.func
+        subject = None
+        if isinstance(f, ast.Attribute) and f.attr == "squeeze" and not call.args and not call.keywords:
+            subject = f.value
+        else:
+            r = self.resolve(call) if isinstance(f, (ast.Attribute, ast.Name)) else ("",)
+            if r[0] == "ext" and r[1] == "numpy.squeeze" and len(call.args) == 1 and not call.keywords:
+                subject = call.args[0]
+        if subject is None:
+            return
+        root = subject.value if isinstance(subject, ast.Subscript) else subject
+        if isinstance(root, ast.Name) and env.get(root.id) == _fs(NP) and (
+                root is subject or (isinstance(subject.slice, ast.Tuple) and all(isinstance(x, ast.Slice) for x in subject.slice.elts))):
+            self.viol4_at("squeeze-all-axes", "%s squeezes the panel without naming the axis: a batch with one instance (or a window "
+                          "with one time point) loses that axis too, so the result for a single instance is computed along another "
+                          "axis than in the batch; use squeeze(1)" % astq.canon(call)[:60], self.loc(call))
+
     def index_use(self, sub, env):
         """panel[i] / panel[i, ...] / panel.iloc[i, ...] with i a loop variable over another axis than the instances."""
         base, idx = sub.value, sub.slice
@@ -827,6 +856,20 @@ class _FnRun:
             self._seen.add(("4", key))
             self.out.viol4.append((key, what, loc))
 
+    def expand_kwargs(self, call):
+        """f(a, **opts) with `opts` a dict literal of string keys assigned once  ->  f(a, k1=v1, ...)."""
+        stars = [k for k in call.keywords if k.arg is None]
+        if len(stars) != 1 or not isinstance(stars[0].value, ast.Name):
+            return call
+        vals = astq.assigned_values(self.fn, stars[0].value.id)
+        if len(vals) != 1 or not isinstance(vals[0], ast.Dict) or not all(
+                isinstance(k, ast.Constant) and isinstance(k.value, str) for k in vals[0].keys):
+            return call
+        kws = [k for k in call.keywords if k.arg is not None] + [ast.keyword(arg=k.value, value=v)
+                                                                  for k, v in zip(vals[0].keys, vals[0].values)]
+        new = ast.Call(func=call.func, args=call.args, keywords=kws)
+        return ast.copy_location(new, call)
+
     def const_of(self, e, env):
         """Boolean value of ``e`` when it folds the same way for everything the environment allows, else None."""
         if isinstance(e, ast.Name):
@@ -871,6 +914,12 @@ class _FnRun:
                 s = self.eval_value(v, env)
                 if s:
                     out[p] = s
+                elif self.consts or any(isinstance(c, tuple) and c[0] == "const" for st0 in env.values() for c in st0):
+                    cv = self.const_of(v, env) if isinstance(v, (ast.Name, ast.Constant)) else None
+                    if isinstance(v, ast.Constant) and isinstance(v.value, bool):
+                        cv = v.value
+                    if cv is not None:
+                        out[p] = _fs(("const", cv))
         return out
 
     # ------------------------------------------------------------------ tests
@@ -1056,6 +1105,8 @@ class _FnRun:
                 visit(ch, env)
             if isinstance(n, ast.Subscript) and self.collect:
                 self.index_use(n, env)
+            if isinstance(n, ast.Call) and self.collect:
+                self.axisless_squeeze(n, env)
             if isinstance(n, ast.Call) and self.collect:
                 direct = [a for a in list(n.args) + [k.value for k in n.keywords] if isinstance(a, ast.Name) and a.id in env
                           and any(c in (NP, PD) for c in env[a.id])]
@@ -1767,6 +1818,24 @@ def label_alignment(ctx, repo):
                     label_carrying = label_carrying or isinstance(arg, ast.Dict)
                     if not has_index and arg is not None and not label_carrying and not _may_be_series(fn, arg, ext, self_method):
                         fresh_series = True
+                elif isinstance(v, ast.Call) and isinstance(v.func, ast.Attribute) and isinstance(v.func.value, ast.Name) \
+                        and v.func.value.id == "self" and self_method(v.func.attr) is not None:
+                    # a helper of the class that rebuilds the column as pd.Series(<list of per-position results>)
+                    callee = self_method(v.func.attr)
+                    cstored = {x.id for x in astq.walk_no_nested(callee) if isinstance(x, ast.Name) and isinstance(x.ctx, ast.Store)}
+                    rets = astq.returns(callee)
+
+                    def fresh_ret(rv):
+                        if not (isinstance(rv, ast.Call) and dotted(rv.func) and dotted(rv.func).split(".")[0] not in cstored):
+                            return False
+                        sym = repo.resolve_dotted(m, dotted(rv.func))
+                        if sym is None or sym.dotted != "pandas.Series":
+                            return False
+                        has_idx = any(k.arg == "index" for k in rv.keywords) or len(rv.args) >= 2
+                        return not has_idx and bool(rv.args) and isinstance(rv.args[0], (ast.List, ast.ListComp))
+
+                    if rets and all(fresh_ret(r.value) for r in rets):
+                        fresh_series = True
                 elif isinstance(v, (ast.List, ast.ListComp)) or (isinstance(v, ast.Name) and _is_list_local(fn, v.id)):
                     positional = True
                 # the frame: created with someone else's row labels?  (constructor index= or a later .index = store
@@ -2001,6 +2070,17 @@ def validators(ctx, repo, an):
                 id(repo.func("sktime/utils/data_processing.py", "from_nested_to_3d_numpy"))}
         xa, xb = sums[NP].reach_assign.get("X", set()), sums[PD].reach_assign.get("X", set())
         bad_x = []
+        _depth = [0]
+
+        def _rename(expr, par):
+            import copy
+
+            class R(ast.NodeTransformer):
+                def visit_Name(self, node):
+                    return ast.copy_location(ast.Name(id="X", ctx=node.ctx), node) if node.id == par else node
+
+            return R().visit(copy.deepcopy(expr))
+
         for pos in sorted(xa ^ xb):
             st = next((n for n in astq.walk_no_nested(fn) if isinstance(n, ast.Assign) and (n.lineno, n.col_offset) == pos), None)
             v = st.value if st is not None else None
@@ -2011,7 +2091,20 @@ def validators(ctx, repo, an):
                 if isinstance(x, ast.IfExp):
                     return allowed(x.body) and allowed(x.orelse)
                 sym = repo.resolve_expr(mod, x.func) if isinstance(x, ast.Call) else None
-                return sym is not None and sym.kind == "func" and id(sym.target) in conv
+                if sym is not None and sym.kind == "func" and id(sym.target) in conv:
+                    return True
+                if sym is not None and sym.kind == "func" and sym.module is mod and _depth[0] < 3:
+                    # a local helper of the validator: each of its returns must itself be X or a conversion of it
+                    bb = astq.bind_call(sym.target, x)
+                    pars = [p0 for p0, a0 in (bb or {}).items() if isinstance(a0, ast.Name) and a0.id == "X"]
+                    rets = astq.returns(sym.target)
+                    if len(pars) == 1 and rets:
+                        _depth[0] += 1
+                        try:
+                            return all(r0.value is not None and allowed(_rename(r0.value, pars[0])) for r0 in rets)
+                        finally:
+                            _depth[0] -= 1
+                return False
 
             if not allowed(v):
                 bad_x.append((pos, v))
